@@ -1,127 +1,3 @@
-// ---------------------------------------------------------------------------------------------
-// C18, hand-written part: prefix/sum types. `*_text` and `*_parse` are written from the
-// statement and the format documents (DEP-3, DEP-5, Policy 7.1 build profiles).
-// ---------------------------------------------------------------------------------------------
-
-// ---- Urgency: keywords are matched case-insensitively, printed in lower case ----
-pub open spec fn urgency_text(v: dc_fields::Urgency) -> Seq<char> {
-    match v {
-        dc_fields::Urgency::Low => "low"@,
-        dc_fields::Urgency::Medium => "medium"@,
-        dc_fields::Urgency::High => "high"@,
-        dc_fields::Urgency::Emergency => "emergency"@,
-        dc_fields::Urgency::Critical => "critical"@,
-    }
-}
-pub open spec fn urgency_parse(s: Seq<char>) -> Option<dc_fields::Urgency> {
-    let l = lower_spec(s);
-    if l == "low"@ { Some(dc_fields::Urgency::Low) }
-    else if l == "medium"@ { Some(dc_fields::Urgency::Medium) }
-    else if l == "high"@ { Some(dc_fields::Urgency::High) }
-    else if l == "emergency"@ { Some(dc_fields::Urgency::Emergency) }
-    else if l == "critical"@ { Some(dc_fields::Urgency::Critical) }
-    else { None }
-}
-pub proof fn urgency_keywords()
-    ensures
-        "low"@ != "medium"@, "low"@ != "high"@, "low"@ != "emergency"@, "low"@ != "critical"@,
-        "medium"@ != "high"@, "medium"@ != "emergency"@, "medium"@ != "critical"@,
-        "high"@ != "emergency"@, "high"@ != "critical"@, "emergency"@ != "critical"@,
-        no_upper_ascii_only("low"@), no_upper_ascii_only("medium"@), no_upper_ascii_only("high"@),
-        no_upper_ascii_only("emergency"@), no_upper_ascii_only("critical"@),
-{
-    reveal_strlit("low"); reveal_strlit("medium"); reveal_strlit("high"); reveal_strlit("emergency"); reveal_strlit("critical");
-    assert("low"@.len() != "medium"@.len()); assert("low"@.len() != "high"@.len());
-    assert("low"@.len() != "emergency"@.len()); assert("low"@.len() != "critical"@.len());
-    assert("medium"@.len() != "high"@.len()); assert("medium"@.len() != "emergency"@.len()); assert("medium"@.len() != "critical"@.len());
-    assert("high"@.len() != "emergency"@.len()); assert("high"@.len() != "critical"@.len());
-    assert("emergency"@.len() != "critical"@.len());
-}
-pub proof fn urgency_roundtrip(v: dc_fields::Urgency)
-    ensures urgency_parse(urgency_text(v)) == Some(v)
-{
-    urgency_keywords();
-    axiom_lower_identity(urgency_text(v));
-}
-pub proof fn urgency_canonical(s: Seq<char>, v: dc_fields::Urgency)
-    requires no_upper_ascii_only(s), urgency_parse(s) == Some(v)
-    ensures urgency_text(v) == s
-{
-    urgency_keywords();
-    axiom_lower_identity(s);
-}
-
-/// a one-char prefix test is a test of the first char
-pub proof fn lemma_prefix1(c: char, t: Seq<char>)
-    ensures is_prefix(seq![c], t) <==> (t.len() > 0 && t[0] == c)
-{
-    if t.len() > 0 {
-        assert(t.take(1) =~= seq![t[0]]);
-        assert(seq![t[0]][0] == t[0]);
-        assert(seq![c][0] == c);
-    }
-}
-
-/// an occurrence found by find_sub lies inside the text
-pub proof fn lemma_find_sub_bounds(s: Seq<char>, p: Seq<char>)
-    ensures find_sub(s, p) >= 0 ==> find_sub(s, p) + p.len() <= s.len(), find_sub(s, p) >= -1
-    decreases s.len()
-{
-    if is_prefix(p, s) {
-    } else if s.len() == 0 {
-    } else {
-        lemma_find_sub_bounds(s.skip(1), p);
-    }
-}
-
-// ---- BuildProfile: "name" enabled, "!name" disabled ----
-pub open spec fn profile_text(v: dc_relations::BuildProfile) -> Seq<char> {
-    match v {
-        dc_relations::BuildProfile::Enabled(s) => s@,
-        dc_relations::BuildProfile::Disabled(s) => seq!['!'] + s@,
-    }
-}
-/// structural description of a parse result (String contents compared through views)
-pub open spec fn profile_parse_is(t: Seq<char>, v: dc_relations::BuildProfile) -> bool {
-    if t.len() > 0 && t[0] == '!' { v is Disabled && v->Disabled_0@ == t.skip(1) }
-    else { v is Enabled && v->Enabled_0@ == t }
-}
-pub open spec fn profile_eq(a: dc_relations::BuildProfile, b: dc_relations::BuildProfile) -> bool {
-    match (a, b) {
-        (dc_relations::BuildProfile::Enabled(x), dc_relations::BuildProfile::Enabled(y)) => x@ == y@,
-        (dc_relations::BuildProfile::Disabled(x), dc_relations::BuildProfile::Disabled(y)) => x@ == y@,
-        _ => false,
-    }
-}
-/// value -> text -> value for profile names that do not themselves begin with '!'
-pub proof fn profile_roundtrip(v: dc_relations::BuildProfile, w: dc_relations::BuildProfile)
-    requires
-        v is Enabled ==> !(v->Enabled_0@.len() > 0 && v->Enabled_0@[0] == '!'),
-        profile_parse_is(profile_text(v), w),
-    ensures profile_eq(v, w)
-{
-    match v {
-        dc_relations::BuildProfile::Enabled(s) => {}
-        dc_relations::BuildProfile::Disabled(s) => { assert((seq!['!'] + s@).skip(1) =~= s@); }
-    }
-}
-/// the same for *every* value of the type (statement as worded) — see known-findings.txt
-pub proof fn profile_roundtrip_all_values(v: dc_relations::BuildProfile, w: dc_relations::BuildProfile)
-    requires profile_parse_is(profile_text(v), w),
-    ensures profile_eq(v, w)
-{
-    match v {
-        dc_relations::BuildProfile::Enabled(s) => {}
-        dc_relations::BuildProfile::Disabled(s) => { assert((seq!['!'] + s@).skip(1) =~= s@); }
-    }
-}
-pub proof fn profile_canonical(t: Seq<char>, v: dc_relations::BuildProfile)
-    requires profile_parse_is(t, v)
-    ensures profile_text(v) == t
-{
-    if t.len() > 0 && t[0] == '!' { assert(seq!['!'] + t.skip(1) =~= t); }
-}
-
 // ---- DEP-3 Forwarded: "no", "not-needed", anything else is a reference ----
 pub open spec fn forwarded_text(v: dep3_fields::Forwarded) -> Seq<char> {
     match v {
@@ -252,86 +128,6 @@ pub proof fn applied_canonical(t: Seq<char>, v: dep3_fields::AppliedUpstream)
     }
 }
 
-// ---- DEP-5 License: "name", "\ntext" or "name\ntext" (first line is the short name) ----
-pub open spec fn nl() -> Seq<char> { seq!['\n'] }
-
-pub open spec fn license_text(v: license::License) -> Seq<char> {
-    match v {
-        license::License::Name(n) => n@,
-        license::License::Text(t) => nl() + t@,
-        license::License::Named(n, t) => n@ + nl() + t@,
-    }
-}
-pub open spec fn license_parse_is(s: Seq<char>, v: license::License) -> bool {
-    let i = find_sub(s, nl());
-    if i < 0 { v is Name && v->Name_0@ == s }
-    else if i == 0 { v is Text && v->Text_0@ == s.skip(1) }
-    else { v is Named && v->Named_0@ == s.take(i) && v->Named_1@ == s.skip(i + 1) }
-}
-pub open spec fn license_eq(a: license::License, b: license::License) -> bool {
-    match (a, b) {
-        (license::License::Name(x), license::License::Name(y)) => x@ == y@,
-        (license::License::Text(x), license::License::Text(y)) => x@ == y@,
-        (license::License::Named(x, t), license::License::Named(y, u)) => x@ == y@ && t@ == u@,
-        _ => false,
-    }
-}
-pub open spec fn no_nl(s: Seq<char>) -> bool { forall|i: int| 0 <= i < s.len() ==> s[i] != '\n' }
-
-pub proof fn lemma_find_nl_none(s: Seq<char>)
-    requires no_nl(s)
-    ensures find_sub(s, nl()) < 0
-    decreases s.len()
-{
-    if s.len() > 0 {
-        assert(s.take(1)[0] == s[0]);
-        assert(no_nl(s.skip(1))) by { assert forall|i: int| 0 <= i < s.skip(1).len() implies s.skip(1)[i] != '\n' by { assert(s.skip(1)[i] == s[i + 1]); } }
-        lemma_find_nl_none(s.skip(1));
-    }
-}
-pub proof fn lemma_find_nl_at(a: Seq<char>, b: Seq<char>)
-    requires no_nl(a)
-    ensures find_sub(a + nl() + b, nl()) == a.len()
-    decreases a.len()
-{
-    let s = a + nl() + b;
-    if a.len() == 0 {
-        assert(s.take(1) =~= nl());
-    } else {
-        assert(s.take(1)[0] == a[0]);
-        assert(s.skip(1) =~= a.skip(1) + nl() + b);
-        assert(no_nl(a.skip(1))) by { assert forall|i: int| 0 <= i < a.skip(1).len() implies a.skip(1)[i] != '\n' by { assert(a.skip(1)[i] == a[i + 1]); } }
-        lemma_find_nl_at(a.skip(1), b);
-    }
-}
-/// value -> text -> value for licences whose short name is one non-empty line
-pub proof fn license_roundtrip(v: license::License, w: license::License)
-    requires
-        v is Name ==> no_nl(v->Name_0@),
-        v is Named ==> no_nl(v->Named_0@) && v->Named_0@.len() > 0,
-        license_parse_is(license_text(v), w),
-    ensures license_eq(v, w)
-{
-    match v {
-        license::License::Name(n) => { lemma_find_nl_none(n@); }
-        license::License::Text(t) => {
-            lemma_find_nl_at(Seq::<char>::empty(), t@);
-            assert(Seq::<char>::empty() + nl() + t@ =~= nl() + t@);
-            assert((nl() + t@).skip(1) =~= t@);
-        }
-        license::License::Named(n, t) => {
-            lemma_find_nl_at(n@, t@);
-            assert((n@ + nl() + t@).take(n@.len() as int) =~= n@);
-            assert((n@ + nl() + t@).skip(n@.len() as int + 1) =~= t@);
-        }
-    }
-}
-pub proof fn license_roundtrip_all_values(v: license::License, w: license::License)
-    requires license_parse_is(license_text(v), w),
-    ensures license_eq(v, w)
-{
-}
-
 // ---- DEP-3 Origin field: "[<category>, ]<origin>" ---------------------------------------------------
 impl VxDisplay for dep3_fields::OriginCategory {
     open spec fn display_spec(&self) -> Seq<char> { origincat_text(*self) }
@@ -422,3 +218,4 @@ pub proof fn origin_field_roundtrip_all_values(c: Option<dep3_fields::OriginCate
         None => { assert(Seq::<char>::empty() + origin_text(o) =~= origin_text(o)); }
     }
 }
+
